@@ -166,7 +166,11 @@ fn synth(op: &str, a: &Args, cs: &ConstraintSystemRef<Fq>) -> R<String> {
             let s = a.fq("s")?;
             let sv = FqVar::new_witness(cs.clone(), || Ok(s)).map_err(se)?;
             let ev = ElementVar::decompress_from_field(sv).map_err(se)?;
-            Ok(elem_value(&ev))
+            // satisfaction and size right after the gadget call, before anything forces the variable
+            let sat0 = match cs.is_satisfied() { Ok(true) => "1", Ok(false) => "0", Err(_) => "err" };
+            let nc0 = cs.num_constraints();
+            let v = elem_value(&ev);
+            Ok(format!("{};sat0={};dnc={}", v, sat0, cs.num_constraints() - nc0))
         }
         "elligator" => {
             let r0 = a.fq("r0")?;
